@@ -99,22 +99,10 @@ def step (s : St) (ws : List String) : St × String :=
         | [_] => none
       match k.toNat?.bind s.var?, pairs rest with
       | some x, some ps =>
-        if c == "adepv" then
-          let s1 := match ps with
-            | [] => s.addDependence x.idx x.idx 0
-            | (i, m) :: _ => s.addDependence x.idx i m
-          let s2 := (ps.drop 1).foldl (fun acc p => match acc.appendDependence x.idx p.1 p.2 with
-            | .ok a => a
-            | .error _ => acc) s1
-          (s2, "ok")
-        else
-          match s.appendDependence x.idx x.idx 0 with
+        if c == "adepv" then (s.addDependenceN x.idx ps, "ok")
+        else match s.appendDependenceN x.idx ps with
+          | .ok s' => (s', "ok")
           | .error e => (s, exc e)
-          | .ok _ =>
-            let s2 := ps.foldl (fun acc p => match acc.appendDependence x.idx p.1 p.2 with
-              | .ok a => a
-              | .error _ => acc) s
-            (s2, "ok")
       | _, _ => (s, exc .unknown_handle)
     else (s, "bad-op")
   | "asg" :: k :: rest =>
